@@ -400,6 +400,7 @@ func (c *Conn) write(frameType int, deadline time.Time, buf0, buf1 []byte) error
 	if err != nil {
 		return c.writeFatal(err)
 	}
+	verifWire(c, buf0, buf1)
 	if frameType == CloseMessage {
 		_ = c.writeFatal(ErrCloseSent)
 	}
@@ -478,6 +479,7 @@ func (c *Conn) WriteControl(messageType int, data []byte, deadline time.Time) er
 	if _, err = c.conn.Write(buf); err != nil {
 		return c.writeFatal(err)
 	}
+	verifWire(c, buf, nil)
 	if messageType == CloseMessage {
 		_ = c.writeFatal(ErrCloseSent)
 	}
